@@ -160,6 +160,26 @@ class Gen:
             if got and "buildScript" in r and rng.random() < 0.8:
                 t = rng.choice(got)
                 r[rng.choice(["buildTools", "buildToolsWeak", "packageTools"])] = [t]
+        # motif: one recipe consumed twice below the root, first without and later with an optional variable
+        if n >= 3 and self.feat("optional_var_motif", 0.5):
+            leaf = names[-1]
+            lr = recipes[leaf]
+            if "buildScript" not in lr:
+                lr["buildVars"] = []
+                lr["buildScript"] = script_for("%sb" % leaf, "build", [])
+                lr["packageVars"] = []
+                lr["packageScript"] = script_for("%sp" % leaf, "package", []) + 'cp -a "$1"/. . 2>/dev/null || true\n'
+            if "OPTV" not in lr.get("buildVars", []):
+                lr["buildVars"] = lr.get("buildVars", []) + ["OPTV"]
+                lr["buildScript"] = 'echo "optv=${OPTV:-none}" > optv.txt\n' + lr["buildScript"]
+            mid = names[1]
+            if mid != leaf:
+                md = [d for d in recipes[mid].get("depends", []) if (d if isinstance(d, str) else d["name"]) != leaf]
+                recipes[mid]["depends"] = md + [{"name": leaf, "environment": {"OPTV": "fast"}}]
+                rd = [d for d in recipes[names[0]].get("depends", []) if (d if isinstance(d, str) else d["name"]) not in (leaf, mid)]
+                sb = [d for d in rd if isinstance(d, dict) and "sandbox" in d.get("use", [])]
+                rest = [d for d in rd if d not in sb]
+                recipes[names[0]]["depends"] = sb + [leaf, mid] + rest
         recipes[names[0]]["root"] = True
         if n > 3 and rng.random() < 0.3:
             recipes[names[1]]["root"] = True
